@@ -17,7 +17,17 @@ THEOREMS = [P + t for t in (
     # extension round
     'groups_partition', 'finish_flux_length', 'combine_flux_length', 'groupLoop_fcm_outside', 'groupsOf_mem', 'fcm_false_nonpositive',
     'preprocess_object', 'preprocess_feature', 'wls_scale_normal', 'wls_scale_optimum', 'wls_scale_unique', 'const_fit_everywhere',
-    'const_fit_data')]
+    'const_fit_data',
+    # second extension round: flux scaling and constant-stays-constant carried through the group loop to the outputs
+    'reject_scale_invariant', 'fit_scale_equivariant', 'iterfit_scale', 'fitFull_scales', 'newflux_scale', 'finish_scale',
+    'combine1fiber_scale', 'combine1fiberFull_scale', 'combine1fiberFull_scale_ok',
+    'const_flux_const', 'const_flux_const_full', 'const_flux_const_exact', 'aesthetics_keeps_pos', 'reject_keeps_exact')] + [
+    'PydlVerif.CombineScale.combine1fiber_eq', 'PydlVerif.CombineScale.c1fLoop_some_spec', 'PydlVerif.CombineScale.c1fLoop_scale',
+    'PydlVerif.CombineScale.c1fLoop_ivar_some', 'PydlVerif.CombineScale.growStable_of_gap',
+    'PydlVerif.CombineConst.fit_const_coeffs', 'PydlVerif.CombineConst.value_of_const_coeffs', 'PydlVerif.CombineConst.splineAt_const',
+    'PydlVerif.CombineConst.iterBodyRq_const', 'PydlVerif.CombineConst.iterLoopRq_const', 'PydlVerif.CombineConst.iterfitRq_const',
+    'PydlVerif.CombineConst.fitFull_const', 'PydlVerif.CombineConst.mkKnots_strict', 'PydlVerif.CombineConst.requirenMask_ok',
+    'PydlVerif.CombineConst.fit_obj_ok']
 RULE = ('1-D spectra of 110-300 pixels and stacks of 2-3 exposures of 110-170 pixels (identical or dithered grids) x flux '
         '{constant, smooth, noisy, with outliers} x objivar {None, flat, varying} x zero-weight pattern {none, single pixels, runs, '
         'both ends, every other pixel, all but 0-2, all} x output grid {same, sub-pixel shift, wider, narrower, coarser, finer, '
@@ -42,7 +52,10 @@ ASSUMPTIONS = ['float64, C-contiguous inputs; finite values; objivar >= 0; wavel
                'EPS slack of the code: an output pixel within 2^-23 of a gap length from a good input pixel next to a bad one is not '
                'required to be 0 (stated in newivar_zero_bad_bracket)',
                'scaling law: inverse variances stay well above EPS = 2^-23 (the code treats |smooth(newivar,3)| < EPS as no data)',
-               'finalmask / indisp / skyflux keywords are not covered (they do not influence the two returned arrays)']
+               'finalmask / indisp / skyflux keywords are not covered (they do not influence the two returned arrays)',
+               'flux-scaling theorems: objivar given, c > 0, homogeneous kernels (KernelScale, window median, mean), exact field; '
+               'constant theorems: the LAPACK pair returns the unique solution of a factored system (SolveUnique), argsort is a sorting permutation, '
+               'wavelengths pairwise different inside every group of good pixels']
 LEVEL_TEXT = ('Machine-checked Lean 4 theorems over an executable model of combine1fiber (grouping, group loop with the spline fit as a '
               'parameter AND instantiated with the modelled iterfit of C08/C09/C10/C17 plus requiren, inverse-variance pipeline, bad-region '
               'growth, scrub, aesthetics) and of preprocess_spectra\'s loop over the objects: for all '
@@ -54,14 +67,32 @@ LEVEL_TEXT = ('Machine-checked Lean 4 theorems over an executable model of combi
               'with inverse variance <= 0 is never kept (any fit); every object of preprocess_spectra is resampled from loglam - log10(1+z_k); the '
               'weighted least-squares optimum is equivariant under (y, w) -> (c y, w/c^2); a constant spectrum is reproduced by a status-0 fit at every '
               'weighted pixel (C09 poly_reproduction at degree 0) and everywhere when the optimum is unique. '
+              'Second extension: both flux clauses are carried through the group loop to the outputs of the whole model function with the '
+              'modelled iterfit (combine1fiberFull). Scaling: for (flux, ivar) -> (c flux, ivar/c^2), c > 0, objivar given, bspline.fit, '
+              'cholesky_band incl. its fallback loop, maskpoints, requiren, every pass of iterfit\'s rejection loop and the degenerate branch take '
+              'the same branches (the rejection test is invariant: (c y - c yfit) sqrt(ivar/c^2) = (y - yfit) sqrt(ivar)), so the state after the '
+              'group loop has newflux x c, working ivar / c^2 and the same newmask/fullcombmask unconditionally (newflux_scale), and the function '
+              'returns (c newflux, newivar/c^2) and refuses alike (combine1fiberFull_scale) when the code\'s absolute bad-region threshold answers '
+              'alike (hgrow). Constant: if every good input pixel carries flux v, every output pixel with newivar > 0 has newflux = v '
+              '(const_flux_const for any fit meeting FitConstData; const_flux_const_full/_exact: the modelled iterfit meets it - status-0 fit of '
+              'constant data stores v in every good coefficient, the spline is v at every abscissa, djs_reject rejects nothing at zero residual, '
+              'the loop ends after the first status-0 pass, the first nord breakpoints are never masked, the constructor\'s knots are strictly '
+              'increasing); combine1fiber = (prelude + loop) >>= finish is a theorem (combine1fiber_eq). '
               'The model is tied to the repository on every run by I/O correspondence of the whole function on generated spectra, both with the '
               'real iterfit calls recorded and replayed and self-contained (no recorded answer), and checked against an independent statement-level oracle.')
 LEVEL_NOTE = ('Partial: "finite" and "identity to interpolation accuracy" are IEEE / numerical statements decided by the harness; theorems are '
               'over exact ordered fields. The theorems about the group loop hold for ANY fit parameter; the instantiated fit (fitFull) is '
-              'modelled and compared, its own theorems are C09/C10\'s (requiren and the degenerate branch are modelled and compared only). '
-              'Scaling of the flux and constant-stays-constant are proved at the level of the normal equations / of the object a status-0 fit returns '
-              '(LAPACK contract as a hypothesis), not chained through the ten-pass rejection loop to the output array; const_flux_const_partial keeps '
-              'its contract form. The self-contained run costs about n^3 (C09 assemble compiles to chained closures), hence small spectra; nearly '
+              'modelled and compared; beyond C09/C10\'s theorems it now has the scale equivariance and the constant-data theorems of the second extension '
+              '(requiren and the degenerate branch included). '
+              'The flux theorems of the second extension are over exact ordered fields and relative to explicit contracts of the kernel parameters, '
+              'never proved for LAPACK/libm themselves: scaling - KernelScale (sqrt(v/c^2) = sqrt(v)/c, isFinite invariant, cholesky_banded(A/c^2) = '
+              'cholesky_banded(A)/c failing alike, cho_solve_banded(L/c, b/c) = c cho_solve_banded(L, b)), homogeneous window median and mean, and '
+              'hgrow: no smoothed raw inverse variance between 0 and EPS max(1, c^2) (the code compares |smooth(newivar,3)| with the absolute EPS and is '
+              'not scale invariant otherwise); without objivar the code uses unit weights and the law does not apply. Constant - SolveUnique (what '
+              'cholesky_solve returns is THE solution of a system cholesky_band factored; like C09 hsolve, on the calls made), argsort = a sorting '
+              'permutation, wavelengths pairwise different inside every group (stacked IDENTICAL grids excluded: ties give repeated knots), aesthetics '
+              'traditional/noconst/mean/nothing (damp multiplies good pixels too). const_flux_const_partial is kept (superseded by const_flux_const). '
+              'The self-contained run costs about n^3 (C09 assemble compiles to chained closures), hence small spectra; nearly '
               'singular fits (cond > 1e12) and fits where one Cholesky succeeds and the other does not are counted, not judged. '
               'Trusted: Lean kernel, axioms propext/Classical.choice/Quot.sound at most, the hand-written model (validated by the correspondence sample only).')
 
